@@ -209,7 +209,24 @@ def check_case(ctx, case):
                 F1 = pydrex.minerals.update_all([X1, Y1], H.params, Fin.copy(), H.Lfun, (a, b, H.posfun), get_regime=gr, **skw)
                 F2 = pydrex.minerals.update_all([Y2, X2], H.params, Fin.copy(), H.Lfun, (a, b, H.posfun), get_regime=gr, **skw)
             ctx.check("c:update_all_order_bit_identical", _same(X1, X2) and _same(Y1, Y2), case)
-            ctx.check("c:update_all_same_F", float(np.abs(F1 - F2).max()) <= 2 * tol_of(H.N) * max(1.0, np.abs(F1).max()), case)
+            okF = float(np.abs(F1 - F2).max()) <= 2 * tol_of(H.N) * max(1.0, np.abs(F1).max())
+            keyF, explF = "c:update_all_same_F", None
+            if not okF and case["L"].get("mode", "const") != "const":
+                # known finding K10: each mineral's solver steps over variations of L differently; defect model = the same
+                # two bulk histories with a capped solver step agree
+                keyF = "F_equals_reference/adaptive_steps_skip_variation_of_L"
+                try:
+                    X3, Y3, X4, Y4 = H.mineral(), other(), H.mineral(), other()
+                    F3 = F4 = H.F0.copy()
+                    for (a, b) in zip(H.ts[:-1], H.ts[1:]):
+                        Fin = F3
+                        cap = {"max_step": abs(b - a) / 25}
+                        F3 = pydrex.minerals.update_all([X3, Y3], H.params, Fin.copy(), H.Lfun, (a, b, H.posfun), get_regime=gr, **cap)
+                        F4 = pydrex.minerals.update_all([Y4, X4], H.params, Fin.copy(), H.Lfun, (a, b, H.posfun), get_regime=gr, **cap)
+                    explF = bool(float(np.abs(F3 - F4).max()) <= 2 * tol_of(H.N) * max(1.0, np.abs(F3).max()))
+                except Exception:
+                    explF = False
+            ctx.check("c:update_all_same_F", okF, case, key=keyF, explained=explF, dF=float(np.abs(F1 - F2).max()))
         except Exception as e:
             if drive.solver_gave_up(case, e):
                 ctx.count("solver_gave_up_under_user_tolerances")
